@@ -58,6 +58,22 @@ func (e *Exec) norm(x *Term, t types.Type) *Term {
 	e.res.Wraps++
 	w := intWidth(t)
 	var r *Term
+	if x.lo != nil && x.hi != nil {
+		// at most one wrap in either direction: express it with ite instead of mod
+		span := pow2(w)
+		if x.lo.Cmp(new(big.Int).Sub(lo, span)) >= 0 && x.hi.Cmp(new(big.Int).Add(hi, span)) <= 0 {
+			f := e.tf
+			r = x
+			if x.hi.Cmp(hi) > 0 {
+				r = f.Ite(f.Cmp("<", f.Int(hi), x), f.Sub(x, f.Int(span)), r)
+			}
+			if x.lo.Cmp(lo) < 0 {
+				r = f.Ite(f.Cmp("<", x, f.Int(lo)), f.Add(x, f.Int(span)), r)
+			}
+			r.lo, r.hi = bmax2(r.lo, lo), bmin2(r.hi, hi)
+			return r
+		}
+	}
 	if isSigned(t) {
 		half := e.tf.Int(pow2(w - 1))
 		r = e.tf.Sub(e.tf.Mod(e.tf.Add(x, half), e.tf.Int(pow2(w))), half)
@@ -915,4 +931,17 @@ func intWidthFloat(t types.Type) int {
 		return 32
 	}
 	return 64
+}
+
+func bmax2(a, b *big.Int) *big.Int {
+	if a == nil {
+		return b
+	}
+	return bmax(a, b)
+}
+func bmin2(a, b *big.Int) *big.Int {
+	if a == nil {
+		return b
+	}
+	return bmin(a, b)
 }
